@@ -41,10 +41,10 @@ func GetTimer(t time.Duration) *time.Timer {
 
 func ReleaseTimer(timer *time.Timer) {
 	if !timer.Stop() {
-		select {
-		case <-timer.C:
-		default:
-		}
+		// The timer has fired, or is firing right now: its tick may still
+		// arrive in timer.C after any drain attempt made here. A timer
+		// with a pending tick must not be handed out again, so drop it.
+		return
 	}
 	timerPool.Put(timer)
 }
